@@ -35,6 +35,13 @@ pub enum HStep {
     /// traffic that shares part of a flow's identity: the flows' client IP address with another
     /// source MAC, or the flows' MAC with another IP address (ARP request, echo, SYN, UDP)
     Alias { kind: u8, mac: [u8; 6], same_ip: bool },
+    /// ICMP / ICMPv6 error from the flows' client quoting a packet the responder sent to it: the
+    /// SYN-ACK of flow `f` (f < 3) or the answer to the client's UDP datagram (f = 3: ports of
+    /// `UdpSame`)
+    IcmpErr { typ4: u8, typ6: u8, code: u8, f: u8, l4_len: u8 },
+    /// an answerable UDP datagram from the flows' client (source port = the case's sport,
+    /// destination port = the case's dport)
+    UdpSame { kind: u8 },
     Other(Step),
 }
 
@@ -69,6 +76,8 @@ pub fn case_strategy() -> impl Strategy<Value = Case> {
                 1 => (0u8..3).prop_map(|f| HStep::Syn { f }),
                 2 => (0u8..3, 0u8..3, prop::sample::select(vec![F_FIN | F_ACK, F_ACK, F_RST, F_RST | F_ACK, F_FIN, F_SYN | F_ACK, F_FIN | F_ACK | F_URG]), any::<bool>()).prop_map(|(f, g, flags, seq_is_cookie)| HStep::NonData { f, g, flags, seq_is_cookie }),
                 2 => (0u8..4, mac_unicast(), any::<bool>()).prop_map(|(kind, mac, same_ip)| HStep::Alias { kind, mac, same_ip }),
+                1 => (icmp_err_type(), prop_oneof![3 => 0u8..6, 1 => any::<u8>()], 0u8..4, prop_oneof![3 => Just(8u8), 1 => 8u8..40]).prop_map(|((typ4, typ6), code, f, l4_len)| HStep::IcmpErr { typ4, typ6, code, f, l4_len }),
+                1 => (0u8..3).prop_map(|kind| HStep::UdpSame { kind }),
                 4 => step_noise().prop_map(HStep::Other),
             ],
             2..=24,
@@ -156,6 +165,28 @@ fn play(c: &Case, st: &mut Stats) -> Result<Vec<Played>, Failure> {
                     _ => udp_frame(&n, c.sport, c.dport, &StunReq { mtype: 1, magic: true, id: [3; 16], attrs: vec![] }.bytes()),
                 }
             }
+            HStep::IcmpErr { typ4, typ6, code, f, l4_len } => {
+                let typ = if net.is_v4() { *typ4 } else { *typ6 };
+                let n = (*l4_len as usize).max(8);
+                if *f < 3 {
+                    let fi = *f as usize;
+                    let mut l4 = tcp_seg(&net.sip, &net.cip, &TcpH::new(flows[fi].dport, flows[fi].sport, cookies[fi], 101, F_SYN | F_ACK), &[]);
+                    l4.resize(n, 0);
+                    icmp_error_frame(net, typ, *code, P_TCP, &l4)
+                } else {
+                    let mut l4 = udp_dgram(&net.sip, &net.cip, c.dport, c.sport, &[0u8; 32], None);
+                    l4.truncate(n.min(l4.len()));
+                    icmp_error_frame(net, typ, *code, P_UDP, &l4)
+                }
+            }
+            HStep::UdpSame { kind } => {
+                let p = match kind % 3 {
+                    0 => StunReq { mtype: 1, magic: true, id: [5; 16], attrs: vec![] }.bytes(),
+                    1 => DnsQuery { id: 77, flags: 0x0100, questions: vec![DnsQuestion { labels: vec![Hex(b"example".to_vec()), Hex(b"com".to_vec())], qtype: 1, qclass: 1 }] }.bytes(),
+                    _ => b"GET / HTTP/1.1\r\n\r\n".to_vec(),
+                };
+                udp_frame(net, c.sport, c.dport, &p)
+            }
             HStep::Other(s) => world.realize(s),
         };
         let out = sut.frame(&frame);
@@ -221,7 +252,7 @@ pub fn check(c: &Case, st: &mut Stats) -> Check {
         }
     }
     let _ = other_flow_data_seen;
-    let kinds: Vec<&str> = c.hist.iter().map(|h| match h { HStep::Chunk { .. } => "chunk", HStep::BadAck { .. } => "bad-ack", HStep::Syn { .. } => "syn", HStep::NonData { .. } => "non-data-tcp(ack related to another flow's cookie)", HStep::Alias { .. } => "alias(shared IP or MAC)", HStep::Other(_) => "other" }).collect();
+    let kinds: Vec<&str> = c.hist.iter().map(|h| match h { HStep::Chunk { .. } => "chunk", HStep::BadAck { .. } => "bad-ack", HStep::Syn { .. } => "syn", HStep::NonData { .. } => "non-data-tcp(ack related to another flow's cookie)", HStep::Alias { .. } => "alias(shared IP or MAC)", HStep::IcmpErr { .. } => "icmp-error(quoting a reply to the client)", HStep::UdpSame { .. } => "udp(same client, same ports)", HStep::Other(_) => "other" }).collect();
     for k in &kinds {
         st.class(&format!("hist:{}", k));
     }
